@@ -1,33 +1,110 @@
-(* M6 — metadata scoring and selection (metadata.c: matchFeatureLists for string-valued keys,
-   lou_findTable, lou_findTables, lou_getTableInfo) over the generated weights (Gen/GMeta.v).
-   Keys and values are numbers: the key order is the case-insensitive alphabetical order of the
-   C code, values compare by (case-insensitive) equality.  Executable, no proofs.          *)
+(* M6 — metadata scoring and selection (metadata.c: matchFeatureLists with fuzzy = 0,
+   matchLanguageTags, lou_findTable, lou_findTables, lou_getTableInfo) over the generated
+   weights (Gen/GMeta.v).
+   Keys are numbers: the key order is the case-insensitive alphabetical order of the C code.
+   A value is a list of subtag ids (ids are assigned case-insensitively, so equality of ids is
+   strcasecmp equality):
+     - the value of a plain (string-valued) key is the singleton list [id] of its string id
+       (plain_id reads it back; the tail is never looked at);
+     - the value of a language key ("language", "region"; "locale" is expanded into these two by
+       the tokeniser) is the parsed language tag, e.g. en-US = [id_en; id_us].
+   Convention on subtag ids: id 0 is the wildcard "*"; ids 1..63 denote the other ONE-CHARACTER
+   subtags (strlen(head) == 1, e.g. the x of en-x-foo); ids >= 64 denote longer subtags.
+   parseLanguageTag never yields an empty list (the feature list is rejected instead); here an
+   empty tag or range matches nothing (match_tags = 0), where the C code would dereference NULL.
+   Executable, no proofs.                                                                     *)
 From Coq Require Import List ZArith NArith Bool.
 From Lou Require Import Gen.GMeta.
 Import ListNotations.
 Local Open Scope Z_scope.
 
-Definition feat := (N * N)%type.       (* key, value *)
+(* L_POS_MATCH and L_EXTRA (the two constants of matchLanguageTags) come from Gen/GMeta.v.  The penalty for further
+   languages of a table, C integer division: the regenerated expression (GMeta.src_lang_penalty) is shown equal to this
+   reference in Properties/C18.v, like the two comparisons of the loop over the entries. *)
+Definition lang_penalty (e : Z) : Z := Z.quot (e + 4) 5.
+
+Definition feat := (N * list N)%type.       (* key, value (list of subtag ids) *)
+
+(* strlen(subtag) == 1: the wildcard "*" (id 0) is one character long too, and the walk of
+   matchLanguageTags does not tell it from the other one-character subtags *)
+Definition single (s : N) : bool := (s <? 64)%N.
+(* *((char * )range->head) == '*' *)
+Definition is_wild (s : N) : bool := (s =? 0)%N.
+
+(* the string id of a plain value *)
+Definition plain_id (v : list N) : N := match v with s :: _ => s | [] => 0%N end.
+
+(* matchLanguageTags after the first subtag: the two loops
+     while (range) { if (!tag) return 0; if equal heads: advance both;
+                     else if (strlen(tag->head) == 1) return 0; else q += EXTRA; tag = tag->tail }
+     while (tag) { q += EXTRA; tag = tag->tail }                                               *)
+Fixpoint tags_walk (tag range : list N) (q : Z) : Z :=
+  match tag with
+  | [] => match range with [] => q | _ :: _ => 0 end
+  | t :: tag' =>
+      match range with
+      | [] => tags_walk tag' [] (q + L_EXTRA)
+      | r :: range' =>
+          if N.eqb t r then tags_walk tag' range' q
+          else if single t then 0
+          else tags_walk tag' range (q + L_EXTRA)
+      end
+  end.
+
+(* matchLanguageTags(tag = the query's value, range = the table's value) *)
+Definition match_tags (tag range : list N) : Z :=
+  match tag, range with
+  | t :: tag', r :: range' =>
+      if is_wild r then tags_walk tag' range' (L_POS_MATCH + L_EXTRA)
+      else if N.eqb t r then tags_walk tag' range' L_POS_MATCH
+      else 0
+  | _, _ => 0
+  end.
 
 Section Score.
-  (* the key "unicode-range" and its values "ucs2", "ucs4" *)
-  Variables (kur ucs2 ucs4 : N).
+  (* the key "unicode-range" and its values "ucs2", "ucs4"; which keys are language keys *)
+  Variables (kur ucs2 ucs4 : N) (islang : N -> bool).
 
-  (* value of one queried feature (k, v1) against the table's group of entries with that key:
+  (* value of one queried feature (k, v1) against the table's group of entries with that key,
+     plain key:
      C: best = negMatch; for each entry while best < 0: same value -> posMatch; the
      unicode-range special case -> posMatch - 1 *)
-  Fixpoint best_of (k v1 : N) (group : list feat) (best : Z) : Z :=
+  Fixpoint best_of (k : N) (v1 : list N) (group : list feat) (best : Z) : Z :=
     match group with
     | [] => best
     | (_, v) :: g =>
         let best' :=
           if best <? 0 then
-            if N.eqb v1 v then W_POS_MATCH
-            else if N.eqb k kur && N.eqb v1 ucs4 && N.eqb v ucs2 then W_POS_MATCH - 1
+            if N.eqb (plain_id v1) (plain_id v) then W_POS_MATCH
+            else if N.eqb k kur && N.eqb (plain_id v1) ucs4 && N.eqb (plain_id v) ucs2
+                 then W_POS_MATCH - 1
             else best
           else best in
         best_of k v1 g best'
     end.
+
+  (* language key: every entry of the group is looked at (no early stop);
+     C: q = matchLanguageTags(v1, v);
+        if (q > 0 && q > best) best = q; else if (!q) extraLanguages += extra;            *)
+  Fixpoint lang_loop (v1 : list N) (group : list feat) (best el : Z) : Z * Z :=
+    match group with
+    | [] => (best, el)
+    | (_, v) :: g =>
+        let q := match_tags v1 v in
+        if (q >? 0) && (q >? best) then lang_loop v1 g q el
+        else if q =? 0 then lang_loop v1 g best (el + W_EXTRA)
+        else lang_loop v1 g best el
+    end.
+
+  (* C: best = negMatch; extraLanguages = 0; loop;
+        if (best > 0) best += (extraLanguages + 4) / 5;                                    *)
+  Definition lang_best (v1 : list N) (group : list feat) : Z :=
+    let r := lang_loop v1 group W_NEG_MATCH 0 in
+    if fst r >? 0 then fst r + lang_penalty (snd r) else fst r.
+
+  (* the contribution of a key present in both lists *)
+  Definition key_best (k : N) (v1 : list N) (group : list feat) : Z :=
+    if islang k then lang_best v1 group else best_of k v1 group W_NEG_MATCH.
 
   Fixpoint take_key (k : N) (l : list feat) : list feat :=
     match l with
@@ -53,7 +130,7 @@ Section Score.
         | (k1, v1) :: q', (k2, v2) :: t' =>
             if N.ltb k1 k2 then mfl f q' t (acc + W_UNDEFINED)
             else if N.ltb k2 k1 then mfl f q (drop_key k2 t') (acc + W_EXTRA)
-            else mfl f q' (drop_key k2 t') (acc + best_of k1 v1 ((k2, v2) :: take_key k2 t') W_NEG_MATCH)
+            else mfl f q' (drop_key k2 t') (acc + key_best k1 v1 ((k2, v2) :: take_key k2 t'))
         end
     end.
 
@@ -96,6 +173,19 @@ Fixpoint info_aux (key : N) (l : list (N * N * Z)) (cur : Z) (val : option N) : 
 Definition get_info (l : list (N * N * Z)) (key : N) : option N := info_aux key l (-1) None.
 
 (* well-formedness predicates used by the statements *)
+
+(* a language value that is not empty and does not start with the wildcard *)
+Definition no_wild_head (v : list N) : bool :=
+  match v with s :: _ => negb (is_wild s) | [] => false end.
+
+(* r is a subsequence of t (leftmost embedding) *)
+Fixpoint subseq (r t : list N) : bool :=
+  match r, t with
+  | [], _ => true
+  | _ :: _, [] => false
+  | a :: r', b :: t' => if N.eqb a b then subseq r' t' else subseq r t'
+  end.
+
 Fixpoint strictly_sorted (l : list feat) : bool :=
   match l with
   | (k1, _) :: (((k2, _) :: _) as r) => N.ltb k1 k2 && strictly_sorted r
